@@ -394,6 +394,30 @@ def has_with(s) -> bool:
     return False
 
 
+# witnesses of the repaired defects F16-1, F16-3, F16-4, F16-14 (they must keep their behaviour from now on)
+FIXED_FLOW_WITNESSES = [
+    ("while", "TUnknown", [("return",)], []),
+    ("while", "TTrue", [("if", "TUnknown", [("break",)], []), ("return",)], []),
+    ("while", "TTrue", [("try", [("break",)], [[("pass",)]], [], [])], []),
+    ("if", "TTrue", [("call",)], [("call",), ("return",)]),
+    ("if", "TFalse", [("return",)], [("call",)]),
+    ("while", "TFalse", [("call",)], [("raise",)]),
+    ("while", "TFalse", [("raise",)], [("return",)]),
+    ("while", "TFalse", [("call",)], []),
+]
+
+
+def has_const_test(s) -> bool:
+    """an if / while with a literal test: delete_unreachable_code removes the dead branch / loop"""
+    if isinstance(s, tuple):
+        if s[0] in ("if", "while") and s[1] in ("TTrue", "TFalse"):
+            return True
+        return any(has_const_test(x) for x in s[1:])
+    if isinstance(s, list):
+        return any(has_const_test(x) for x in s)
+    return False
+
+
 def flow_end_to_end(run, mods, shapes):
     fixes, core = mods["fixes"], mods["core"]
     fails, known, n, n_rw = [], [], 0, 0
@@ -512,9 +536,9 @@ def check(run: common.Run):
             known_hits.append({"stmt": src, "observed": sorted(obs1)})
 
     # ---- end to end through delete_unreachable_code (deterministic slice of the exhaustive shapes)
-    cand = [s for s, m in zip(stmts[:n_exh], model[:n_exh]) if any(m["flags"][:3])]
-    step = 9 if run.tier == "quick" else 1
-    e2e_fail, e2e_known, n_e2e, n_e2e_rw = flow_end_to_end(run, mods, cand[::step])
+    cand = [s for s, m in zip(stmts[:n_exh], model[:n_exh]) if any(m["flags"][:3]) or has_const_test(s)]
+    step = 13 if run.tier == "quick" else 1
+    e2e_fail, e2e_known, n_e2e, n_e2e_rw = flow_end_to_end(run, mods, FIXED_FLOW_WITNESSES + cand[::step])
     known_hits += [{"stmt": k["stmt"], "observed": k["only_after"]} for k in e2e_known]
 
     # ---- known findings
